@@ -86,6 +86,14 @@ Theorem C07_contract_runs : forall (ths : list (list (site * (snode -> node)))),
 Proof. exact runs_contract. Qed.
 Print Assumptions C07_contract_runs.
 
+(** NAME RESOLUTION IS STABLE: every site inside pathNode.pathNodeFor / pathNode.nameFor -- where a handler finds the
+    node it will lock for a child, or the name it will hand to the backend -- is reached with renameMu held
+    (a rename re-binds names to nodes under renameMu.W alone); so the node locked is the node the name denotes
+    when the backend call runs.  >= 20 such sites exist in the table. *)
+Theorem C07_resolution_under_rename_lock : (forall st, In st sites -> resolve_ok st = true) /\ Nat.leb 20 resolve_sites = true.
+Proof. split; [exact resolves_ok|exact resolves_present]. Qed.
+Print Assumptions C07_resolution_under_rename_lock.
+
 (** Open: every File.Open site holds the fidRef's openMu, and [opened] is written under openMu and the node lock *)
 Theorem C07_open_sites_ok : forall st, In st sites -> open_ok st = true.
 Proof. exact open_sites_ok. Qed.
